@@ -267,6 +267,88 @@ def rs : Handler := fun args impl =>
     | none => bad "decode"
   | _ => bad "arity"
 
-def handlers : List (String × Handler) := [("rd", rd), ("rs", rs)]
+/-! ## the self-describing route: `deserialize_any` + a visitor that tells `visit_borrowed_str` / `visit_str` / `visit_string` apart
+
+`rsa <cfg> <ctx> <doc> <p> => <str>|<slice>|<reader>` — the literal whose body starts at `doc[p]` (`doc[p-1] = '"'`) as top-level
+value (`T`), array element (`A`), map key (`K`), map value (`V`), or as the `&'a str` member of a derived untagged enum (`U` top
+level, `UA` element of a `Vec`). MODEL: the scanner models at index `p` of the document — `Model.ReadSlice` (its `Reference` is
+`Borrowed` or `Copied`) for `str` / `slice`, `Model.ReadIo` (always copied) for the reader; for the untagged enum a copied
+string cannot become a `&'a str`: serde's "data did not match any variant" (message and, for `UA`, position echoed).
+SPECIFICATION (C05, independent of the models): `Spec.Rec` + `Spec.Canon` give the literal's extent and decoding; from `str` /
+`slice` the visitor must be handed a BORROWED string — the subslice `doc[p .. end-1]` — exactly when the body has no backslash,
+a transient one (`visit_str`) otherwise; from a reader never a borrowed one; the bytes are the RFC 8259 decoding in every case;
+the untagged enum's `Text(&str)` must exist for every escape-free literal from `str` / `slice`. -/
+
+def isDataErr (o : String) : Bool :=
+  match o.splitOn ":" with
+  | ["E", _, "data", _, _] => true
+  | _ => false
+
+def rsaData (ctx impl : String) : String :=
+  if ctx == "U" then s!"E:{(impl.splitOn ":").getD 1 "?"}:data:0:0"
+  else if isDataErr impl then impl else "E:?:data"
+
+def rsaSlice (strSrc : Bool) (ctx : String) (bs : Bytes) (p : Nat) (impl : String) : String :=
+  let r : SliceRead := ⟨bs, p⟩
+  match (if strSrc then Model.ReadSlice.strParseStr r else Model.ReadSlice.parseStr r) with
+  | .ok ref _ =>
+    if ref.isBorrowed then s!"OK:{hexField ref.bytes}:B{p}"
+    else if ctx == "U" || ctx == "UA" then rsaData ctx impl
+    else s!"OK:{hexField ref.bytes}:C"
+  | .err c r => e2eErr c r.position
+  | .fuel => "FUEL"
+
+def rsaIo (ctx : String) (bs : Bytes) (p : Nat) (impl : String) : String :=
+  match Model.ReadIo.parseStr (IoPos.at bs p false) with
+  | .ok ref _ => if ctx == "U" || ctx == "UA" then rsaData ctx impl else s!"OK:{hexField ref.bytes}:C"
+  | .err c r => e2eErr c (some r.position)
+  | .fuel => "FUEL"
+
+def rsaJudge (srcName ctx : String) (byteSource isReader : Bool) (bs : Bytes) (p : Nat) (o : String) : List String :=
+  if o == "-" then [] else
+  if o == "PANIC" then [s!"C14 {srcName} {ctx}: deserialize_any panics"] else
+  let untagged := ctx == "U" || ctx == "UA"
+  match oracleStr byteSource bs p, o.splitOn ":" with
+  | some (dec, e), ["OK", hb, cls] =>
+    let body := (bs.take (e - 1)).drop p
+    (if hb == hexField dec then [] else [s!"C05 {srcName} {ctx}: deserialize_any: decoded bytes differ from the RFC 8259 decoding {hexField dec}"]) ++
+    (if isReader then
+      (if cls.startsWith "B" then [s!"C05 {srcName} {ctx}: a reader handed out a borrowed string ({cls})"] else [])
+     else if hasBackslash body then
+      (if cls.startsWith "B" then [s!"C05 {srcName} {ctx}: deserialize_any: borrowed ({cls}) although the literal has an escape"] else [])
+     else if cls != s!"B{p}" then
+      [s!"C05 {srcName} {ctx}: deserialize_any: a literal without escapes reached the visitor as {cls}, not as the borrowed subslice at {p}"]
+     else if some body != bytesOfHex hb then [s!"C05 {srcName} {ctx}: deserialize_any: borrowed bytes are not input[{p}..{e - 1}]"]
+     else [])
+  | some (dec, e), _ =>
+    let body := (bs.take (e - 1)).drop p
+    if untagged then
+      (if isReader || hasBackslash body then []
+       else [s!"C05 {srcName} {ctx}: untagged enum: the escape-free literal {hexField dec} did not arrive as a borrowed &str: {o}"])
+    else [s!"C05 {srcName} {ctx}: deserialize_any: a well-formed literal (decoding {hexField dec}) is rejected: {o}"]
+  | none, "OK" :: _ => [s!"C05 {srcName} {ctx}: deserialize_any: accepted although no well-formed literal meeting the side conditions starts at {p}"]
+  | none, _ => []
+
+def rsa : Handler := fun args impl =>
+  match args with
+  | [_cfg, ctx, h, ps] =>
+    match bytesOfHex h, ps.toNat? with
+    | some bs, some p =>
+      if p == 0 || bs[p - 1]? != some 0x22 then bad "no quote before the literal body" else
+      match impl.splitOn "|" with
+      | [s, b, r] =>
+        let m := (if Spec.Utf8.validUtf8 bs then rsaSlice true ctx bs p s else "-") ++ "|" ++ rsaSlice false ctx bs p b ++ "|" ++ rsaIo ctx bs p r
+        let untagged := ctx == "U" || ctx == "UA"
+        let dropCls (o : String) : String := match o.splitOn ":" with | ["OK", x, _] => "OK:" ++ x | _ => o
+        let specs :=
+          rsaJudge "str" ctx false false bs p s ++ rsaJudge "slice" ctx true false bs p b ++ rsaJudge "reader" ctx true true bs p r ++
+          (if untagged || dropCls b == dropCls r then [] else [s!"C09 {ctx}: deserialize_any: from_slice and from_reader disagree: {b} | {r}"]) ++
+          (if s == "-" || s == b then [] else [s!"C09 {ctx}: deserialize_any: from_str and from_slice disagree on UTF-8 input: {s} | {b}"])
+        { model := m, specs := specs }
+      | _ => bad "obs"
+    | _, _ => bad "decode"
+  | _ => bad "arity"
+
+def handlers : List (String × Handler) := [("rd", rd), ("rs", rs), ("rsa", rsa)]
 
 end SJ.Drv.Readers
